@@ -111,8 +111,28 @@ def emit_scenarios(ctx):
     return out
 
 
-def emit_rule(ctx, res, rule, lockstep_rule=None):
+def skeleton(tokens):
+    """The emission with every JSON-whitespace token removed: what is left is what a JSON parser sees."""
+    out = []
+    for t in tokens:
+        if t[0] in ("sp", "ind"):
+            continue
+        if t[0] == "w":
+            txt = "".join(ch for ch in t[1] if ch not in " \t\n\r")
+            if not txt:
+                continue
+            t = ("w", txt)
+        out.append(t)
+    return merge_w(out)
+
+
+def emit_rule(ctx, res, rule, lockstep_rule=None, mode="layout"):
+    """mode 'layout': the exact documented layout (C13).  mode 'skeleton': only the non-whitespace tokens, their order and
+    the child arguments (C04: layout changes that only move whitespace do not affect the round trip).  mode 'compact': the
+    skeleton of the inline scenarios only (with the compact record nothing is ever expanded; whitespace is C08.nows)."""
     for sc, rows, err in emit_scenarios(ctx):
+        if mode == "compact" and sc.size_kind == "Expanded":
+            continue
         key = "%s/%s" % (rule, sc.tag())
         if err:
             res.violation(rule, key + "/undecided", "undecided: " + err)
@@ -127,13 +147,16 @@ def emit_rule(ctx, res, rule, lockstep_rule=None):
         r = rets[0]
         want = merge_w(L.emission(sc.kind, sc.n, sc.size_kind == "Expanded"))
         got = r["tokens"]
+        if mode != "layout":
+            want, got = skeleton(want), skeleton(got)
         if got != want:
             # first difference
             i = 0
             while i < min(len(got), len(want)) and got[i] == want[i]:
                 i += 1
             res.violation(rule, "%s/token%d/%s" % (key, i, "/".join(map(str, got[i])) if i < len(got) else "end"),
-                          "emission differs from the documented layout in scenario %s at token %d: printed %r, documented %r" % (
+                          "%s in scenario %s at token %d: printed %r, expected %r" % (
+                              "emission differs from the documented layout" if mode == "layout" else "the JSON tokens written (whitespace ignored) differ from the document",
                               sc.tag(), i, got[i] if i < len(got) else None, want[i] if i < len(want) else None),
                           witness={"printed": [list(t) for t in got], "documented": [list(t) for t in want]})
         else:
@@ -141,7 +164,7 @@ def emit_rule(ctx, res, rule, lockstep_rule=None):
         for o in r["obl"]:
             res.ob(tuple(o[1]) == ("options", "sizes", "index"), rule, key + "/child-args", "a child is printed with other options / sizes / index than the parent's: %r" % (o[1],))
         res.count("emit_scenarios")
-    res.floor(rule, "emit_scenarios", 12)
+    res.floor(rule, "emit_scenarios", 12 if mode != "compact" else 8)
 
 
 def lockstep_emit(ctx, res, rule):
@@ -416,7 +439,9 @@ def strwidth_rule(ctx, res):
 
 
 # ---- lemmas on Spaces / IndentBy / Indent ------------------------------------------------------------------------------
-def lemma_rule(ctx, res, rule):
+def lemma_rule(ctx, res, rule, exact=True):
+    """exact=True (C13): Spaces / IndentBy / Indent write exactly n spaces / k units.  exact=False (C04): they write nothing
+    but JSON whitespace (how much is a layout matter)."""
     P = ctx.P
 
     def run_loop(inst, selfval, k):
@@ -461,9 +486,14 @@ def lemma_rule(ctx, res, rule):
             ok = len(outs) == 1 and len(rets) == 1
             ev = [tuple(e) for e in rets[0].events] if rets else None
             want = [expect(selfval)] * k
-            res.ob(ok and ev == want, rule, "%s/%s/k=%d" % (rule, label, k), "%s with a range of %d items writes %r (expected %r)" % (label, k, ev, want),
-                   sample={"lemma": label, "iterations": k, "writes": [str(x) for x in (ev or [])]} if k == 3 else None)
-            if ranges:
+            if exact:
+                res.ob(ok and ev == want, rule, "%s/%s/k=%d" % (rule, label, k), "%s with a range of %d items writes %r (expected %r)" % (label, k, ev, want),
+                       sample={"lemma": label, "iterations": k, "writes": [str(x) for x in (ev or [])]} if k == 3 else None)
+            else:
+                ws = ok and all(e == expect(selfval) or (e[0] == "w" and isinstance(e[1], Str) and e[1].s.strip(" \t\n\r") == "") for e in ev)
+                res.ob(ws, rule, "%s/%s/k=%d" % (rule, label, k), "%s writes something other than JSON whitespace: %r" % (label, ev),
+                       sample={"lemma": label, "iterations": k, "writes": [str(x) for x in (ev or [])]} if k == 3 else None)
+            if ranges and exact:
                 r0 = ranges[0]
                 okr = isinstance(r0, Agg) and r0.fields[0] == Conc(0) and r0.fields[1] == nsym
                 res.ob(okr, rule, "%s/%s/range" % (rule, label), "%s does not iterate over 0..n with n its own count: %r" % (label, r0))
